@@ -44,6 +44,7 @@ func c10(r *lp.Run) {
 	rng := r.Rng
 	c10Sorted(r, rng.Fork(1))
 	c10Collect(r, rng.Fork(2))
+	c10RespOrder(r, rng.Fork(4))
 	c10Repeat(r, rng.Fork(3))
 	c10Race(r)
 }
@@ -969,4 +970,88 @@ func c10RaceChild() {
 		}
 	}
 	fmt.Printf("racegen: generations=%d\n", n)
+}
+
+// ir.sortResponseInfos against the Lean model RespOrder (driver tag rsort): entry sets as the StatusCode map holds
+// them (one entry per real code and content type; responses that carry their code fold to 999), handed over in two
+// random orders — the two results must be equal (the property), and equal to the model's
+func c10RespOrder(r *lp.Run, rng *lp.Rand) {
+	ctypes := []string{"application/json", "application/xml", "text/plain", ""}
+	codes := []int{200, 201, 204, 400, 401, 404, 409, 500, 503, 0}
+	for it := 0; it < r.N(3000, 40000); it++ {
+		type ent struct {
+			code  int
+			with  bool
+			ctype string
+		}
+		seen := map[[2]int]bool{}
+		var es []ent
+		// a shared component first used as default: every one of its codes carries the flag
+		sharedWith := rng.Chance(50)
+		for k := rng.Intn(7); k > 0; k-- {
+			ci, ti := rng.Intn(len(codes)), rng.Intn(len(ctypes))
+			if seen[[2]int{ci, ti}] {
+				continue
+			}
+			seen[[2]int{ci, ti}] = true
+			with := rng.Chance(20)
+			if sharedWith && codes[ci] >= 400 {
+				with = true
+			}
+			es = append(es, ent{codes[ci], with, ctypes[ti]})
+		}
+		run := func(perm []int) string {
+			cs := make([]int, len(es))
+			ws := make([]bool, len(es))
+			ts := make([]string, len(es))
+			for i, p := range perm {
+				cs[i], ws[i], ts[i] = es[p].code, es[p].with, es[p].ctype
+			}
+			return lp.Guard(func() string {
+				order := ir.VerifSortResponseInfos(cs, ws, ts)
+				parts := make([]string, len(order))
+				for i, o := range order {
+					parts[i] = c10RespKey(cs[o], ws[o], ts[o], ctypes)
+				}
+				if len(parts) == 0 {
+					return "-"
+				}
+				return strings.Join(parts, ",")
+			})
+		}
+		p1, p2 := rng.Perm(len(es)), rng.Perm(len(es))
+		o1, o2 := run(p1), run(p2)
+		r.PropCheck()
+		ties := 0
+		for i := range es {
+			for j := i + 1; j < len(es); j++ {
+				if es[i].with && es[j].with && es[i].ctype == es[j].ctype {
+					ties++
+				}
+			}
+		}
+		if o1 != o2 {
+			r.Fail(lp.PropFail{Property: "C10", What: "the order of response cases depends on the iteration order of the status-code map", Input: map[string]any{"entries": fmt.Sprint(es), "order1": p1, "order2": p2}, Observed: o1 + " vs " + o2, Expected: "one order"})
+		}
+		in := make([]string, len(es))
+		for i, p := range p1 {
+			in[i] = c10RespKey(es[p].code, es[p].with, es[p].ctype, ctypes)
+		}
+		payload := "-"
+		if len(in) > 0 {
+			payload = strings.Join(in, ",")
+		}
+		r.Case("rsort", payload, o1, fmt.Sprintf("rsort:ties%d", min(ties, 2)), ties > 0)
+	}
+}
+
+func c10RespKey(code int, with bool, ctype string, ctypes []string) string {
+	f := code
+	if with {
+		f = 999
+	}
+	sorted := append([]string{}, ctypes...)
+	sort.Strings(sorted)
+	rank := sort.SearchStrings(sorted, ctype)
+	return fmt.Sprintf("%d:%d:%d", f, rank, code)
 }
